@@ -56,11 +56,11 @@ def bcAdd [Add R] [Zero R] (u v : List R) : Except String (List R) :=
   else .error "error:ValueError"
 
 /-- first error of a list of results, else all values -/
-def seqE {α : Type} : List (Except String α) → Except String (List α)
+def dtSeqE {α : Type} : List (Except String α) → Except String (List α)
   | [] => .ok []
   | r :: rs => do
       let a ← r
-      let as ← seqE rs
+      let as ← dtSeqE rs
       pure (a :: as)
 
 /-- Python `sum(d(M) for M in Ms)`: `0 + d₁`, then for each further member: evaluate it, add -/
@@ -164,19 +164,19 @@ def diagCode (bs0 : Nat) (alg : Alg) : Op R → Int → Except String (List R)
       if k ≠ 0 then .error "error:AssertionError"
       else if (Ms.map (fun M => decide (M.rows ≠ M.cols))).any id then .error "error:AssertionError"
       else do
-        let ds ← seqE (Ms.map (fun M => diagCode bs0 alg M k))
+        let ds ← dtSeqE (Ms.map (fun M => diagCode bs0 alg M k))
         let parts := (ds.zip mults).flatMap (fun p => List.replicate p.2 p.1)
         if parts.isEmpty then .error "error:ValueError" else pure parts.flatten
   | kron Ms, k =>
       if k ≠ 0 then .error "error:AssertionError"
       else if (Ms.map (fun M => decide (M.rows ≠ M.cols))).any id then .error "error:AssertionError"
       else do
-        let ds ← seqE (Ms.map (fun M => diagCode bs0 alg M k))
+        let ds ← dtSeqE (Ms.map (fun M => diagCode bs0 alg M k))
         pure (outerProd ds)
   | kronsum Ms, k =>
       if k ≠ 0 then .error "error:AssertionError"
       else do
-        let ds ← seqE (Ms.map (fun M => diagCode bs0 alg M k))
+        let ds ← dtSeqE (Ms.map (fun M => diagCode bs0 alg M k))
         pure (outerSum ds)
   | annot _ A, k => diagCode bs0 alg A k
   | A, k => genericDiag bs0 alg A k
@@ -186,7 +186,7 @@ def diagCode (bs0 : Nat) (alg : Alg) : Op R → Int → Except String (List R)
 /-- `trace(A, alg)`: `prod(trace(M))` for a `Kronecker`, else `assert square; diag(A, 0, alg).sum()` -/
 def traceCode (bs0 : Nat) (alg : Alg) : Op R → Except String R
   | kron Ms => do
-      let ts ← seqE (Ms.map (fun M => traceCode bs0 alg M))
+      let ts ← dtSeqE (Ms.map (fun M => traceCode bs0 alg M))
       match ts with
       | [] => .error "error:TypeError"
       | t :: ts' => pure (ts'.foldl (· * ·) t)
